@@ -74,6 +74,7 @@ static std::vector<std::string> g_encs;
 static const char* const VERS[2] = { "1.0", "1.1" };
 static const int NOFF = 34;          // m in {1,2} x d in -8..+8
 static const int NOFF_E2E = 9;       // m = 1, d in -4..+4
+static const int NOFF_PAIR = 17;     // m = 1, d in -8..+8
 
 static void addItem(const char* n, const WS& s, const WS& trail = WS()) { Item it; it.name = n; it.s = s; it.trail = trail; g_items.push_back(it); }
 
@@ -158,6 +159,20 @@ static bool isChar11(unsigned c) { return (c >= 1 && c <= 0xD7FF) || (c >= 0xE00
 static bool restricted11(unsigned c) { return (c >= 1 && c <= 8) || c == 0xB || c == 0xC || (c >= 0xE && c <= 0x1F) || (c >= 0x7F && c <= 0x84) || (c >= 0x86 && c <= 0x9F); }
 // must be written as a character reference to survive a parse (line-end normalisation / 1.1 restricted characters)
 static bool needsRef(int ver, unsigned c) { return c == 0xD || (ver == 1 && (restricted11(c) || c == 0x85 || c == 0x2028)); }
+static bool isLineEnd(int ver, unsigned c) { return c == 0xD || c == 0xA || (ver == 1 && (c == 0x85 || c == 0x2028)); }
+// XML line-end normalisation (2.11): what a parser reports for text that was written without references
+static WS normaliseLineEnds(int ver, const WS& s)
+{
+    WS o;
+    for (size_t i = 0; i < s.size(); ++i)
+    {
+        unsigned c = s[i];
+        if (c == 0xD) { if (i + 1 < s.size() && (s[i + 1] == 0xA || (ver == 1 && s[i + 1] == 0x85))) ++i; o += (XalanDOMChar)0xA; }
+        else if (ver == 1 && (c == 0x85 || c == 0x2028)) o += (XalanDOMChar)0xA;
+        else o += (XalanDOMChar)c;
+    }
+    return o;
+}
 
 static const unsigned CP1252_HI[32] = { 0x20AC, 0, 0x201A, 0x0192, 0x201E, 0x2026, 0x2020, 0x2021, 0x02C6, 0x2030, 0x0160, 0x2039, 0x0152, 0, 0x017D, 0,
                                         0, 0x2018, 0x2019, 0x201C, 0x201D, 0x2022, 0x2013, 0x2014, 0x02DC, 0x2122, 0x0161, 0x203A, 0x0153, 0, 0x017E, 0x0178 };
@@ -189,10 +204,18 @@ static Tri representable(const Case& c, const WS& content)
     std::vector<unsigned> cps;
     if (!scalarSeq(content, cps)) return NO;
     for (unsigned cp : cps) if (!(c.ver == 1 ? isChar11(cp) : isChar10(cp))) return NO;
-    if (c.kind == K_TEXT || c.kind == K_ATTR || c.kind == K_CDATA) return YES;   // references (CDATA: after closing the section) can carry everything else
+    if (c.kind == K_TEXT || c.kind == K_ATTR) return YES;   // references can carry everything else
+    if (c.kind == K_CDATA)
+    {
+        // representable by closing the section around a reference; refusing a control character inside a CDATA section
+        // with an error is tolerated as well (MAYBE) - writing it raw is not
+        for (unsigned cp : cps) if (needsRef(c.ver, cp)) return MAYBE;
+        return YES;
+    }
     Tri r = YES;
     for (unsigned cp : cps)
     {
+        if (isLineEnd(c.ver, cp)) continue;       // no escape exists in comments / PIs: the expectation is normalised instead
         if (needsRef(c.ver, cp)) return NO;
         Tri e = encodable(g_encs[c.enc], cp);
         if (e == NO) return NO;
@@ -236,8 +259,10 @@ static Events expectedEvents(const Case& c, const WS& content, size_t pad)
         else e.push_back("T:" + p + it);
         break;
     case K_ATTR: if (pad) e.push_back("T:" + p); e.push_back("E:e"); e.push_back("A:a=" + it); e.push_back("/E"); break;
-    case K_COMMENT: if (pad) e.push_back("T:" + p); e.push_back("C:" + (c.e2e ? u8(repairComment(content)) : it)); break;
-    case K_PI: if (pad) e.push_back("T:" + p); e.push_back("P:t|d" + (c.e2e ? u8(repairPI(content)) : it)); break;
+    // comments and PIs have no escape mechanism: a CR (1.1: NEL, LSEP) in their data cannot survive any XML serialization,
+    // the expectation is the line-end-normalised data (stated relaxation of "parses back to exactly")
+    case K_COMMENT: if (pad) e.push_back("T:" + p); e.push_back("C:" + u8(normaliseLineEnds(c.ver, c.e2e ? repairComment(content) : content))); break;
+    case K_PI: if (pad) e.push_back("T:" + p); e.push_back("P:t|d" + u8(normaliseLineEnds(c.ver, c.e2e ? repairPI(content) : content))); break;
     case K_ELNAME: if (pad) e.push_back("T:" + p); e.push_back("E:" + it + "n"); e.push_back("/E"); break;
     case K_ATNAME: if (pad) e.push_back("T:" + p); e.push_back("E:e"); e.push_back("A:" + it + "n=v"); e.push_back("/E"); break;
     }
@@ -447,9 +472,9 @@ static std::string evText(const Events& e, size_t maxEach = 60)
     return o;
 }
 
-static Verdict judgeBytes(const std::string& bytes, const std::string& enc, int ver)
+static Verdict judgeBytes(const std::string& bytes, const std::string& enc, int ver, bool allowExpat)
 {
-    Verdict v; v.wf = false; v.parsersDisagree = false; v.usedExpat = expatKnows(enc);
+    Verdict v; v.wf = false; v.parsersDisagree = false; v.usedExpat = allowExpat && expatKnows(enc);
     std::string b = bytes;
     if (ver == 1)
     {
@@ -460,7 +485,7 @@ static Verdict judgeBytes(const std::string& bytes, const std::string& enc, int 
     Parsed ex; if (v.usedExpat) ex = parseExpat(b);
     if (ver == 1) { unplaceholder(lx.ev); unplaceholder(ex.ev); }
     v.libxmlSays = lx.wf ? "well-formed" : "NOT well-formed: " + lx.err;
-    v.expatSays = !v.usedExpat ? "not run (encoding unknown to expat)" : (ex.wf ? "well-formed" : "NOT well-formed: " + ex.err);
+    v.expatSays = !v.usedExpat ? "not run (encoding / 5th-edition name characters unknown to expat)" : (ex.wf ? "well-formed" : "NOT well-formed: " + ex.err);
     v.evExpat = ex.ev; v.evLibxml = lx.ev;
     if (v.usedExpat && (ex.wf != lx.wf || (ex.wf && ex.ev != lx.ev))) v.parsersDisagree = true;
     if (!lx.wf || (v.usedExpat && !ex.wf)) { v.why = !lx.wf ? "libxml2: " + lx.err : "expat: " + ex.err; return v; }
@@ -710,7 +735,9 @@ static Eval evaluate(int ser, const Case& c)
         ev.escaped = !ok || b1 < b0 || ev.run.bytes.compare(b0, b1 - b0, naive) != 0;
     }
     const double t1 = nowS();
-    ev.verdict = judgeBytes(ev.run.bytes, enc, c.ver);
+    bool supplInName = false;
+    if (isNameKind(c.kind)) for (XalanDOMChar ch : content) if (ch >= 0xD800 && ch < 0xE000) supplInName = true;
+    ev.verdict = judgeBytes(ev.run.bytes, enc, c.ver, !supplInName);
     ev.tJudge = nowS() - t1;
     if (!ev.verdict.wf) { ev.outcome = O_ILLFORMED; ev.kindText = std::string("illformed") + unrep; ev.why = ev.verdict.why; return ev; }
     bool same = ev.verdict.ev == ev.expected;
@@ -735,7 +762,7 @@ static std::string detailOf(int ser, const Case& c, const Eval& ev)
     const std::string& enc = g_encs[c.enc];
     std::string d;
     char b[200];
-    snprintf(b, sizeof b, "off=%d:%d case=%s ser=%s pad=%zu item=", c.m, c.d, encodeCase(c).c_str(), SER_NAME[ser], ev.pad);
+    snprintf(b, sizeof b, "off=%d:%d noff=%d case=%s ser=%s pad=%zu item=", c.m, c.d, c.e2e ? NOFF_E2E : (c.i2 >= 0 ? NOFF_PAIR : NOFF), encodeCase(c).c_str(), SER_NAME[ser], ev.pad);
     d += b; d += labelOf(c) + " units=[" + hexUnits(contentOf(c)) + "]";
     if (!trailOf(c).empty()) d += " memory-after-span=[" + hexUnits(trailOf(c)) + "]";
     d += std::string(" representable=") + (ev.rep == YES ? "yes" : ev.rep == NO ? "no" : "maybe");
@@ -787,6 +814,7 @@ static void runCase(const Case& c, Out& out, bool wantSample)
         evs[k] = evaluate(sers[k], c);
         const Eval& ev = evs[k];
         account(out, sers[k], c, ev);
+        flushOut(out, stdout);   // a later fatal outcome in this worker must not lose what was already measured
         if (isViolation(ev.outcome))
         {
             // shrink a pair to the single item that fails the same way on its own (same place, same serializer)
@@ -826,11 +854,12 @@ static void runCase(const Case& c, Out& out, bool wantSample)
 
 // ------------------------------------------------------------------------------------------------ index spaces
 static size_t nGroupsSingle() { return 5 * g_items.size() + 2 * g_names.size(); }
-static void groupToKindItem(size_t g, bool withTrail, int& kind, int& i1)
+static void groupToKindItem(size_t g, bool e2e, int& kind, int& i1)
 {
-    const size_t ni = withTrail ? g_items.size() : g_nBase;
+    const size_t ni = e2e ? g_nBase : g_items.size();
+    const size_t nn = e2e ? g_names.size() - 1 : g_names.size();
     if (g < 5 * ni) { kind = (int)(g / ni); i1 = (int)(g % ni); }
-    else { g -= 5 * ni; kind = K_ELNAME + (int)(g / g_names.size()); i1 = (int)(g % g_names.size()); }
+    else { g -= 5 * ni; kind = K_ELNAME + (int)(g / nn); i1 = (int)(g % nn); }
 }
 static void offFromIndex(int o, int& m, int& d) { m = 1 + o / 17; d = (o % 17) - 8; }
 
@@ -840,26 +869,27 @@ static Case singleCase(uint64_t i)
     Case c; int o = (int)(i % NOFF); i /= NOFF;
     size_t g = (size_t)(i % nGroupsSingle()); i /= nGroupsSingle();
     c.ver = (int)(i % 2); i /= 2; c.enc = (int)i;
-    groupToKindItem(g, true, c.kind, c.i1); offFromIndex(o, c.m, c.d);
+    groupToKindItem(g, false, c.kind, c.i1); offFromIndex(o, c.m, c.d);
     return c;
 }
-static uint64_t nPairs() { return (uint64_t)g_encs.size() * 2 * 5 * g_nBase * g_nBase * NOFF; }
+static uint64_t nPairs() { return (uint64_t)g_encs.size() * 2 * 5 * g_nBase * g_nBase * NOFF_PAIR; }
 static Case pairCase(uint64_t i)
 {
-    Case c; int o = (int)(i % NOFF); i /= NOFF;
+    Case c; int o = (int)(i % NOFF_PAIR); i /= NOFF_PAIR;
     c.i2 = (int)(i % g_nBase); i /= g_nBase; c.i1 = (int)(i % g_nBase); i /= g_nBase;
     c.kind = (int)(i % 5); i /= 5; c.ver = (int)(i % 2); i /= 2; c.enc = (int)i;
     offFromIndex(o, c.m, c.d);
     return c;
 }
-static size_t nGroupsE2E() { return 5 * g_nBase + 2 * g_names.size(); }
+static size_t nNamesE2E() { return g_names.size() - 1; }
+static size_t nGroupsE2E() { return 5 * g_nBase + 2 * nNamesE2E(); }
 static uint64_t nE2E() { return (uint64_t)g_encs.size() * 2 * nGroupsE2E() * NOFF_E2E; }
 static Case e2eCase(uint64_t i)
 {
     Case c; c.e2e = true; int o = (int)(i % NOFF_E2E); i /= NOFF_E2E;
     size_t g = (size_t)(i % nGroupsE2E()); i /= nGroupsE2E();
     c.ver = (int)(i % 2); i /= 2; c.enc = (int)i;
-    groupToKindItem(g, false, c.kind, c.i1); c.m = 1; c.d = o - 4;
+    groupToKindItem(g, true, c.kind, c.i1); c.m = 1; c.d = o - 4;
     return c;
 }
 
@@ -867,7 +897,7 @@ static std::pair<std::string, std::string> describeCase(const Case& c)
 {
     const int ser = c.e2e ? E2E : (g_stage ? g_stage->ser : 0);
     return std::make_pair(std::string(SER_NAME[ser]) + "|" + g_encs[c.enc] + "|" + VERS[c.ver] + "|" + KIND_NAME[c.kind] + "|" + labelOf(c),
-                          "off=" + std::to_string(c.m) + ":" + std::to_string(c.d) + " case=" + encodeCase(c) + " item units=[" + hexUnits(contentOf(c)) + "]");
+                          "off=" + std::to_string(c.m) + ":" + std::to_string(c.d) + " noff=" + std::to_string(c.e2e ? NOFF_E2E : (c.i2 >= 0 ? NOFF_PAIR : NOFF)) + " case=" + encodeCase(c) + " item units=[" + hexUnits(contentOf(c)) + "]");
 }
 
 // ------------------------------------------------------------------------------------------------ replay
@@ -896,6 +926,7 @@ static int replay(const std::string& enc)
     int bad = 0;
     for (int k = 0; k < n; ++k)
     {
+        printf("--- serializer=%s ...\n", SER_NAME[sers[k]]); fflush(stdout);
         Eval ev = evaluate(sers[k], c);
         printf("--- serializer=%s padding=%zu representable=%s outcome=%s\n", SER_NAME[sers[k]], ev.pad, ev.rep == YES ? "yes" : ev.rep == NO ? "no" : "maybe", ev.kindText.c_str());
         if (!ev.xsl.empty()) { std::string x = ev.xsl; size_t p = x.find("xxxxxxxxxxxxxxxx"); if (p != std::string::npos) { size_t q = p; while (q < x.size() && x[q] == 'x') ++q; x = x.substr(0, p) + "x{" + std::to_string(q - p) + "}" + x.substr(q); } printf("  stylesheet: %s\n  param p = string with units [%s]\n", x.c_str(), hexUnits(contentOf(c)).c_str()); }
@@ -904,7 +935,17 @@ static int replay(const std::string& enc)
         {
             printf("  bytes : %zu, flushes at", ev.run.bytes.size());
             for (size_t e : ev.run.chunkEnds) printf(" %zu", e);
-            printf("\n  hex   : %s\n", hexBytes(ev.run.bytes, 0, ev.run.bytes.size()).c_str());
+            {
+                // the padding ('x' bytes, or 'x' 00 in UTF-16) is shown as a count
+                const std::string& by = ev.run.bytes; std::string hx;
+                for (size_t i = 0; i < by.size();)
+                {
+                    size_t j = i; while (j < by.size() && (by[j] == 'x' || (by[j] == 0 && j > 0 && by[j - 1] == 'x'))) ++j;
+                    if (j - i >= 32) { hx += " [78" + std::string(by[i + 1] == 0 ? "00" : "") + " x " + std::to_string(by[i + 1] == 0 ? (j - i) / 2 : j - i) + "] "; i = j; }
+                    else { hx += hexBytes(by, i, i + 1); ++i; }
+                }
+                printf("\n  hex   : %s\n", hx.c_str());
+            }
             printable(g_encs[c.enc], ev.run.bytes);
             printf("  expat   : %s\n  libxml2 : %s\n", ev.verdict.expatSays.c_str(), ev.verdict.libxmlSays.c_str());
             printf("  expected tree: %s\n", evText(ev.expected).c_str());
@@ -914,6 +955,7 @@ static int replay(const std::string& enc)
         if (!ev.why.empty()) printf("  why   : %s\n", ev.why.c_str());
         if (isViolation(ev.outcome)) { ++bad; printf("  VERDICT: violation %s\n", sigOf(sers[k], c, labelOf(c), ev.kindText).c_str()); }
         else printf("  VERDICT: %s\n", ev.kindText.c_str());
+        fflush(stdout);
     }
     return bad ? 1 : 0;
 }
@@ -959,8 +1001,8 @@ int main(int argc, char** argv)
                         [&](uint64_t i, Out& o) { runCase(e2eCase(i), o, i % 4999 == 11); },
                         [](uint64_t i) { return describeCase(e2eCase(i)); }, "e2e", 20);
             if (shard == 0)
-                printf("count\tspace_singles\t%llu\ncount\tspace_pairs\t%llu\ncount\tspace_e2e\t%llu\ncount\toffsets_direct\t%d\ncount\toffsets_e2e\t%d\n",
-                       (unsigned long long)NS, (unsigned long long)NP, (unsigned long long)NE, NOFF, NOFF_E2E);
+                printf("count\tspace_singles\t%llu\ncount\tspace_pairs\t%llu\ncount\tspace_e2e\t%llu\n",
+                       (unsigned long long)NS, (unsigned long long)NP, (unsigned long long)NE);
         }
     }
     fflush(stdout);
